@@ -206,7 +206,9 @@ class Builder:
                 io = h.Instance(of=tgt)
             elif kind == "array":
                 if inst.get("via") == "mult_late":
-                    io = h.Instance(of=tgt)  # connected first, multiplied afterwards: `m.arr = n * Cell(a=x, ...)`
+                    # connected first, multiplied afterwards: `m.arr = n * Cell(a=x, ...)`; every other template already
+                    # carries the name its array will be added under
+                    io = h.Instance(of=tgt, name=inst["name"]) if inst.get("tag", 0) % 2 == 0 else h.Instance(of=tgt)
                 elif inst.get("via") == "mult":
                     io = inst["n"] * h.Instance(of=tgt)
                 else:
